@@ -10,7 +10,9 @@ import sim as S
 VERIF = B.VERIF
 KNOWN_FILE = os.path.join(VERIF, "known_findings.txt")
 # runs against a scratch copy (mutation campaign) must not touch the committed evidence
-_ALT = os.path.realpath(B.REPO) != "/repo"
+# VERIF_COVDIR=<dir> is a diagnostic mode (not a check): every variant is built with gcov instrumentation into <dir>, kept afterwards
+COVDIR = os.environ.get("VERIF_COVDIR")
+_ALT = os.path.realpath(B.REPO) != "/repo" or bool(COVDIR)
 EVDIR = os.path.join(VERIF, ".build", "alt", "evidence") if _ALT else os.path.join(VERIF, "evidence")
 RPDIR = os.path.join(VERIF, ".build", "alt", "replays") if _ALT else os.path.join(VERIF, "replays")
 
@@ -122,6 +124,11 @@ def main(module, argv):
             if kw.get("thorough_only") and tier != "thorough":
                 continue
             kw = {k: x for k, x in kw.items() if k != "thorough_only"}
+            if COVDIR:
+                kw = {k: x for k, x in kw.items() if k != "rename_text"}
+                exes[variant + ":" + exe if exe != "cosim" else variant] = B.build("cov", os.path.join(COVDIR, prop + "-" + variant), harness=harness, exe=exe,
+                                                                                   extra_defs=B.VARIANTS[variant][2], **kw)
+                continue
             exes[variant + ":" + exe if exe != "cosim" else variant] = B.build(variant, bdir, harness=harness, exe=exe, **kw)
     except B.BuildError as e:
         print("INCONCLUSIVE property=%s build failed\n%s" % (prop, e))
